@@ -2,6 +2,7 @@ import PynModel.Kernels.Threshold
 import PynModel.Kernels.Nan
 import PynProofs.Threshold
 import PynProps.C15
+import PynProps.C01
 /-!
 # C07 — threshold and dropna keep the right samples and a support that separates them
 Models: `Pyn.jitthreshold` (checked reads: the Python source does not guard them) and
@@ -337,6 +338,25 @@ theorem threshold_correct (ts : Array Int) (ix : Array Bool) (st en : Array Int)
   obtain ⟨out, hout⟩ := C15.threshold_safe ts ix st en hm hc hix hin
   obtain ⟨h1, h2⟩ := threshold_cover ts ix st en hs hix hn out hout
   exact ⟨out, hout, h1, h2, threshold_inside ts ix st en hm hc hs hix hn hin out hout⟩
+
+/-- **C07 for threshold, through the IntervalSet constructor** (soundness half): the support `x.threshold(..)` carries is
+the constructor applied to the kernel's arrays; whatever the constructor does to them (it drops the zero-length interval
+of a lone kept sample: the open finding is about the OTHER half), every instant of the new support lies in one interval
+of the old support, and no rejected sample lies in it -/
+theorem threshold_support_sound (ts : Array Int) (ix : Array Bool) (st en : Array Int) (hm : st.size = en.size)
+    (hc : Canon st en hm) (hs : StrictInc ts) (hix : ix.size = ts.size) (hn : 0 < ts.size)
+    (hin : ∀ i, (h : i < ts.size) → InIv st en hm ts[i]) :
+    ∃ out, ∃ hsz : out.1.size = out.2.size, jitthreshold ts ix st en = .ok out ∧
+      (∀ x, InOut (ISet.mk out.1 out.2 hsz) x → ∃ j, ∃ hj : j < st.size, 2 * st[j] ≤ x ∧ x ≤ 2 * en[j]'(hm ▸ hj)) ∧
+      (∀ i, (hi : i < ts.size) → ix[i]'(by omega) = false → ¬ InOut (ISet.mk out.1 out.2 hsz) (2 * ts[i])) := by
+  obtain ⟨out, hout, hsz, hcov, hinside⟩ := threshold_correct ts ix st en hm hc hs hix hn hin
+  refine ⟨out, hsz, hout, fun x hx => ?_, fun i hi hrej hx => ?_⟩
+  · obtain ⟨k, hk, a, b⟩ := C01.mk_sound _ _ hsz x hx
+    obtain ⟨j, hj, c, d⟩ := hinside k (by omega) hk
+    exact ⟨j, hj, by omega, by omega⟩
+  · obtain ⟨k, hk, a, b⟩ := C01.mk_sound _ _ hsz _ hx
+    have : ix[i]'(by omega) = true := (hcov i hi).mpr ⟨k, by omega, hk, a, b⟩
+    rw [hrej] at this; cases this
 
 -- non-vacuity: the input of the repaired multi-epoch finding meets every hypothesis
 example : Canon #[0, 10, 20] #[4, 14, 24] rfl ∧ StrictInc #[10, 11, 12, 20, 21] := by
